@@ -299,11 +299,11 @@ theorem dropWhile_append_of_stop {p : UInt8 → Bool} {l : Bytes} {q : UInt8} {r
     by_cases ha : p a = true
     · simp only [List.dropWhile_cons, ha, if_true] at h
       have := ih h
-      simp [List.dropWhile_cons, List.takeWhile_cons, ha, this.1, this.2]
+      simp [ha, this.1, this.2]
     · simp only [List.dropWhile_cons, ha] at h
       simp only [Bool.false_eq_true, if_false] at h
       cases h
-      simp [List.dropWhile_cons, List.takeWhile_cons, ha]
+      simp [ha]
 
 theorem dropFold_none_append_lf {p : List (UInt8 × UInt8)} {b : Bytes}
     (hp : ∀ q ∈ p, (LF == q.1 || LF == q.2) = false) (h : dropFold p b = none) :
@@ -326,12 +326,12 @@ theorem dropFold_none_append_lf {p : List (UInt8 × UInt8)} {b : Bytes}
 theorem dropWhile_append_of_all {p : UInt8 → Bool} {l : Bytes} (a : UInt8) (ha : p a = false)
     (h : l.dropWhile p = []) : (l ++ [a]).dropWhile p = [a] := by
   induction l with
-  | nil => simp [List.dropWhile_cons, ha]
+  | nil => simp [ha]
   | cons b t ih =>
     by_cases hb : p b = true
     · simp only [List.dropWhile_cons, hb, if_true] at h
-      simp [List.dropWhile_cons, hb, ih h]
-    · simp [List.dropWhile_cons, hb] at h
+      simp [hb, ih h]
+    · simp [hb] at h
 
 theorem idHere_append_lf (b : Bytes) : idHere (b ++ [LF]) = idHere b := by
   unfold idHere
@@ -439,7 +439,7 @@ theorem bufStep_reply {v : Ver} {r : Reply} {lf a : Bytes} (hr : goodReply v r =
     (hb : buf ++ c = (lf ++ r.body) ++ a) :
     bufStep v buf c = ([], some (r.to, lf ++ r.body ++ a)) := by
   simp only [goodReply, Bool.and_eq_true, Bool.not_eq_true', beq_iff_eq, bne_iff_ne, ne_eq,
-    Bool.or_eq_true, decide_eq_true_eq] at hr
+    Bool.or_eq_true] at hr
   obtain ⟨⟨⟨⟨⟨⟨htl, hnc⟩, _⟩, hfire⟩, hid⟩, hne⟩, hstart⟩ := hr
   have ha : allLF a = true := by
     rw [ht, allLF_append, Bool.and_eq_true] at htl; exact htl.1
@@ -462,7 +462,7 @@ theorem walk_reply {v : Ver} {r : Reply} {lf : Bytes} (hr : goodReply v r = true
       ∃ j, filings v x0 cs = ([(r.to, lf ++ r.body ++ r.tail.take j)], r.tail.drop j) := by
   have hr' := hr
   simp only [goodReply, Bool.and_eq_true, Bool.not_eq_true', beq_iff_eq, bne_iff_ne, ne_eq,
-    Bool.or_eq_true, decide_eq_true_eq] at hr'
+    Bool.or_eq_true] at hr'
   obtain ⟨⟨⟨⟨⟨⟨htl, _⟩, hne0⟩, _⟩, _⟩, _⟩, _⟩ := hr'
   have hNE : NoEarly v (lf ++ r.body) := noEarly_lfs hlf (noEarly_of_bool hne0)
   intro cs
